@@ -1408,6 +1408,9 @@ func (fv *FV) rangeMap(e *Env, s *ast.RangeStmt, mt *types.Map, label string, ls
 		}
 	}
 	fv.assume(body, and(sel(dom, k), not(sel(vis, k))))
+	if !isLocal {
+		fv.assume(body, not(eq(m.T, tNull))) // a nil map has no entries to iterate over
+	}
 	set := func(x ast.Expr, v Value) {
 		if x == nil {
 			return
